@@ -126,6 +126,37 @@ func ZzC07H264() {
 	zzCover("B fragmented", len(pb) > 1)
 	zzCover("B single packet", len(pb) == 1)
 }
+
+// C08 (inductive step at the REAL caps): arbitrary pre-state whose accumulators
+// hold up to the documented maximum (length-only buffers), one arbitrary small
+// packet: returned frame within the maximum, accounting invariant re-established.
+func ZzC08H264Ind() {
+	P := zzParam("PI", 6)
+	d := zzDecoder()
+	d.firstPacketReceived = zzBool("first")
+	if zzBool("hasfrag") {
+		h := zzBytes("fraghdr", 1, 1)
+		f := zzBytesLO("frag", 0, h264.MaxAccessUnitSize-1)
+		d.fragments = [][]byte{h, f}
+		d.fragmentsSize = 1 + len(f)
+	}
+	d.fragmentNextSeqNum = zzU16("nextseq")
+	if zzBool("hasframe") {
+		u := zzBytesLO("bufnalu", 1, h264.MaxAccessUnitSize)
+		d.frameBuffer = [][]byte{u}
+		d.frameBufferLen = 1
+		d.frameBufferSize = len(u)
+	}
+	pkt := &rtp.Packet{Header: rtp.Header{SequenceNumber: zzU16("seq"), Timestamp: zzU32("ts"), Marker: zzBool("marker")},
+		Payload: zzBytes("payload", 0, P)}
+	out, err := d.Decode(pkt)
+	if err == nil {
+		zzAssert(zzFrameSize(out) <= h264.MaxAccessUnitSize, "returned frame <= documented maximum")
+	}
+	zzAssert(zzInv(d), "retained bytes accounted and within the documented maximum")
+	zzCover("frame returned", err == nil)
+	zzCover("error returned", err != nil)
+}
 ''')
 
 # ---------------------------------------------------------------- H265
@@ -202,6 +233,38 @@ func zzInv(d *Decoder) bool {
 	ok = zzAnd(ok, zzAnd(len(d.frameBuffer) == d.frameBufferLen, d.frameBufferLen <= h265.MaxNALUsPerAccessUnit))
 	return ok
 }
+''',
+      extra='''
+// C08 (inductive step at the REAL caps): arbitrary pre-state whose accumulators
+// hold up to the documented maximum (length-only buffers), one arbitrary small
+// packet: returned frame within the maximum, accounting invariant re-established.
+func ZzC08H265Ind() {
+	P := zzParam("PI", 6)
+	d := zzDecoder()
+	d.firstPacketReceived = zzBool("first")
+	if zzBool("hasfrag") {
+		h := zzBytes("fraghdr", 2, 2)
+		f := zzBytesLO("frag", 0, h265.MaxAccessUnitSize-2)
+		d.fragments = [][]byte{h, f}
+		d.fragmentsSize = 2 + len(f)
+	}
+	d.fragmentNextSeqNum = zzU16("nextseq")
+	if zzBool("hasframe") {
+		u := zzBytesLO("bufnalu", 1, h265.MaxAccessUnitSize)
+		d.frameBuffer = [][]byte{u}
+		d.frameBufferLen = 1
+		d.frameBufferSize = len(u)
+	}
+	pkt := &rtp.Packet{Header: rtp.Header{SequenceNumber: zzU16("seq"), Timestamp: zzU32("ts"), Marker: zzBool("marker")},
+		Payload: zzBytes("payload", 0, P)}
+	out, err := d.Decode(pkt)
+	if err == nil {
+		zzAssert(zzFrameSize(out) <= h265.MaxAccessUnitSize, "returned frame <= documented maximum")
+	}
+	zzAssert(zzInv(d), "retained bytes accounted and within the documented maximum")
+	zzCover("frame returned", err == nil)
+	zzCover("error returned", err != nil)
+}
 ''')
 
 # ---------------------------------------------------------------- AV1
@@ -252,6 +315,36 @@ func zzInv(d *Decoder) bool {
 	ok = zzAnd(ok, zzAnd(len(d.frameBuffer) == d.frameBufferLen, d.frameBufferLen <= av1.MaxOBUsPerTemporalUnit))
 	return ok
 }
+''',
+      extra='''
+// C08 (inductive step at the REAL caps): arbitrary pre-state whose accumulators
+// hold up to the documented maximum (length-only buffers), one arbitrary small
+// packet: returned frame within the maximum, accounting invariant re-established.
+func ZzC08AV1Ind() {
+	P := zzParam("PI", 6)
+	d := &Decoder{firstPacketReceived: zzBool("first")}
+	if zzBool("hasfrag") {
+		f := zzBytesLO("frag", 1, av1.MaxTemporalUnitSize)
+		d.fragments = [][]byte{f}
+		d.fragmentsSize = len(f)
+	}
+	d.fragmentNextSeqNum = zzU16("nextseq")
+	if zzBool("hasframe") {
+		u := zzBytesLO("bufobu", 1, av1.MaxTemporalUnitSize)
+		d.frameBuffer = [][]byte{u}
+		d.frameBufferLen = 1
+		d.frameBufferSize = len(u)
+	}
+	pkt := &rtp.Packet{Header: rtp.Header{SequenceNumber: zzU16("seq"), Timestamp: zzU32("ts"), Marker: zzBool("marker")},
+		Payload: zzBytes("payload", 0, P)}
+	out, err := d.Decode(pkt)
+	if err == nil {
+		zzAssert(zzFrameSize(out) <= av1.MaxTemporalUnitSize, "returned frame <= documented maximum")
+	}
+	zzAssert(zzInv(d), "retained bytes accounted and within the documented maximum")
+	zzCover("frame returned", err == nil)
+	zzCover("error returned", err != nil)
+}
 ''')
 
 # ---------------------------------------------------------------- VP8
@@ -282,6 +375,32 @@ func zzInv(d *Decoder) bool {
 		n += len(f)
 	}
 	return zzAnd(n == d.frameBufferSize, d.frameBufferSize <= vp8.MaxFrameSize)
+}
+''',
+      extra='''
+// C08 (inductive step at the REAL caps): arbitrary pre-state whose accumulators
+// hold up to the documented maximum (length-only buffers), one arbitrary small
+// packet: returned frame within the maximum, accounting invariant re-established.
+func ZzC08VP8Ind() {
+	P := zzParam("PI", 6)
+	d := &Decoder{firstPacketReceived: zzBool("first")}
+	nf := zzConcretize(zzIntIn("nfrag", 0, 2))
+	for i := 0; i < nf; i++ {
+		f := zzBytesLO("frag", 1, vp8.MaxFrameSize)
+		d.frameBuffer = append(d.frameBuffer, f)
+		d.frameBufferSize += len(f)
+	}
+	zzAssume(d.frameBufferSize <= vp8.MaxFrameSize)
+	d.frameNextSeqNum = zzU16("nextseq")
+	pkt := &rtp.Packet{Header: rtp.Header{SequenceNumber: zzU16("seq"), Timestamp: zzU32("ts"), Marker: zzBool("marker")},
+		Payload: zzBytes("payload", 0, P)}
+	out, err := d.Decode(pkt)
+	if err == nil {
+		zzAssert(zzFrameSize(out) <= vp8.MaxFrameSize, "returned frame <= documented maximum")
+	}
+	zzAssert(zzInv(d), "retained bytes accounted and within the documented maximum")
+	zzCover("frame returned", err == nil)
+	zzCover("error returned", err != nil)
 }
 ''')
 
@@ -336,5 +455,31 @@ func zzInv(d *Decoder) bool {
 		n += len(f)
 	}
 	return zzAnd(n == d.fragmentsSize, d.fragmentsSize <= vp9.MaxFrameSize)
+}
+''',
+      extra='''
+// C08 (inductive step at the REAL caps): arbitrary pre-state whose accumulators
+// hold up to the documented maximum (length-only buffers), one arbitrary small
+// packet: returned frame within the maximum, accounting invariant re-established.
+func ZzC08VP9Ind() {
+	P := zzParam("PI", 6)
+	d := &Decoder{firstPacketReceived: zzBool("first")}
+	nf := zzConcretize(zzIntIn("nfrag", 0, 2))
+	for i := 0; i < nf; i++ {
+		f := zzBytesLO("frag", 1, vp9.MaxFrameSize)
+		d.fragments = append(d.fragments, f)
+		d.fragmentsSize += len(f)
+	}
+	zzAssume(d.fragmentsSize <= vp9.MaxFrameSize)
+	d.fragmentNextSeqNum = zzU16("nextseq")
+	pkt := &rtp.Packet{Header: rtp.Header{SequenceNumber: zzU16("seq"), Timestamp: zzU32("ts"), Marker: zzBool("marker")},
+		Payload: zzBytes("payload", 0, P)}
+	out, err := d.Decode(pkt)
+	if err == nil {
+		zzAssert(zzFrameSize(out) <= vp9.MaxFrameSize, "returned frame <= documented maximum")
+	}
+	zzAssert(zzInv(d), "retained bytes accounted and within the documented maximum")
+	zzCover("frame returned", err == nil)
+	zzCover("error returned", err != nil)
 }
 ''')
